@@ -123,9 +123,14 @@ def exec_precedence(case):
     from picosvg.svg_transform import Affine2D
 
     name = case["field"]
-    vals = PRECEDENCE_VALUES[name]
+    default = getattr(config.FontConfig(), name)
+    if name == "transform":
+        default = ""
+    vals = tuple(PRECEDENCE_VALUES[name]) + (default,)  # index 2: the documented default, given explicitly
     in_file = None if case["file"] is None else vals[case["file"]]
     as_flag = None if case["flag"] is None else vals[case["flag"]]
+    if (in_file is None and case["file"] is not None) or (as_flag is None and case["flag"] is not None):
+        return [{"status": "skipped", "clause": "C10.flag-file-default", "fp": None}]  # default is None: cannot be given explicitly
     tmp = Path(os.environ.get("VERIF_SCRATCH", "/var/tmp")) / f"c10p-{os.getpid()}"
     tmp.mkdir(parents=True, exist_ok=True)
     f = tmp / "cfg.toml"
@@ -146,7 +151,7 @@ def exec_precedence(case):
             FL[name].value = old
         exp = as_flag if as_flag is not None else (in_file if in_file is not None else getattr(config.FontConfig(), name))
         if name == "transform" and isinstance(exp, str):
-            exp = Affine2D.fromstring(exp)
+            exp = Affine2D.fromstring(exp) if exp else Affine2D.identity()
         if got != exp:
             return [bad("C10.flag-file-default", f"{name}: file={in_file!r} flag={as_flag!r} -> {got!r}, expected {exp!r}")]
         return [ok("C10.flag-file-default", "flag" if as_flag is not None else "file" if in_file is not None else "default")]
@@ -335,7 +340,7 @@ def run(report, tier, only=None):
         listing.run(report, cases, execute, timeout=60, transitions_per_case=1)
     if only in (None, "precedence"):
         cases = [{"kind": "precedence", "field": f, "file": fi, "flag": fl}
-                 for f in PRECEDENCE_VALUES for fi in (None, 0, 1) for fl in (None, 0, 1)]
+                 for f in PRECEDENCE_VALUES for fi in (None, 0, 1, 2) for fl in (None, 0, 1, 2)]
         flag_backed = set(PRECEDENCE_VALUES)
         unflagged = [f for f in config.FontConfig._fields if f not in flag_backed and f not in ("axes", "masters", "source_names")]
         if unflagged:
